@@ -350,6 +350,8 @@ structure Tables where
   readerCloses : Bool                 -- `readSSE` ends with an unconditional `t.close()`
   watcherCancels : Bool               -- `processWatcher` calls `t.cancel()`
   startGuarded : Bool                 -- `establishGetSSE[Connection]` returns early on a closed flag
+  startBounded : Bool                 -- legacy SSE `start`: the stream request ends with the caller's context while it is being established
+  startSelStream : Bool               -- legacy SSE `start`: the wait for the endpoint event has the case of the stream's context (Close() cancels it)
   deriving Repr
 
 def Transport.client : Transport → Client
@@ -398,10 +400,10 @@ def factsOf (tb : Tables) (t : Transport) : Facts :=
   { selCtx := match t with
       | .streamJson => reqCtx
       | .streamSse => reqCtx && selHas tb t (·.ctx)
-      | .sse => reqCtx && selHas tb t (·.ctx)
+      | .sse => reqCtx && selHas tb t (·.ctx) && tb.startBounded   -- both stages of the first call: `start`, then the wait for the answer
       | .stdio => selHas tb t (·.ctx),
     selTctx := t = .stdio && selHas tb t (·.tctx),
-    selClosed := t.shared && selHas tb t (·.recv),
+    selClosed := t.shared && selHas tb t (·.recv) && (t != .sse || tb.startSelStream),
     selTimeout := t = .stdio && selHas tb t (·.timer),
     recvOk := t.shared && selHas tb t (·.recvOk),
     hasTable := t.shared && !ins.isEmpty,
